@@ -11,6 +11,7 @@
 // end point the code reports (tie robust), see NOTES.md.
 #include "DensitySubGrid.hpp"
 #include "exact_marcher.hpp"
+#include "hang_guard.hpp"
 #include "verif_common.hpp"
 
 #include <cfloat>
@@ -23,16 +24,12 @@ typedef long double LD;
 using xm::i64;
 
 // ---------------------------------------------------------------------------
-// abort() interposition: cmac_error ends in abort(); a traversal that aborts
-// is an observation, not the end of the enumeration
+// abort() interposition and hang guard (hang_guard.hpp): cmac_error ends in
+// abort(); a traversal that aborts or never returns is an observation, not the
+// end of the enumeration
 // ---------------------------------------------------------------------------
-static thread_local jmp_buf *t_abort_jmp = nullptr;
 extern "C" __attribute__((noreturn)) void abort(void) noexcept {
-  if (t_abort_jmp) {
-    jmp_buf *j = t_abort_jmp;
-    t_abort_jmp = nullptr;
-    longjmp(*j, 1);
-  }
+  hg::on_abort();
   signal(SIGABRT, SIG_DFL);
   raise(SIGABRT);
   _exit(134);
@@ -160,10 +157,11 @@ struct Config {
 struct Base {
   int g, a;
   int n[3], h[3], d[3], cls[3];
+  int zs = 0; // bit i: the (zero) direction component i is handed over as -0.0
 };
 
 struct Stats {
-  uint64_t evaluations = 0, nontrivial = 0, near_tol = 0, base_cases = 0;
+  uint64_t evaluations = 0, nontrivial = 0, near_tol = 0, base_cases = 0, negzero_base_cases = 0;
   uint64_t by_method[M_NUM] = {0, 0, 0, 0};
   uint64_t absorbed = 0, escaped = 0, tie_alt_used = 0, class_subset_accepted = 0;
   uint64_t exits[4] = {0, 0, 0, 0}; // inside(absorbed), face, edge, corner
@@ -177,6 +175,7 @@ struct Stats {
     nontrivial += o.nontrivial;
     near_tol += o.near_tol;
     base_cases += o.base_cases;
+    negzero_base_cases += o.negzero_base_cases;
     for (int i = 0; i < M_NUM; ++i)
       by_method[i] += o.by_method[i];
     absorbed += o.absorbed;
@@ -217,7 +216,7 @@ struct Ctx {
 };
 
 struct Obs {
-  bool aborted = false;
+  bool aborted = false, hung = false;
   int out = -1;
   double E[3] = {0, 0, 0};
   double tau_after = 0;
@@ -267,12 +266,14 @@ static Obs run_real(DensitySubGrid &grid, const Ctx &c, int method, double targe
   setup_packet(ph, c, pos, target);
   // (set_direction renormalises: compare with what the packet holds now)
   const double dir0[3] = {ph.get_direction()[0], ph.get_direction()[1], ph.get_direction()[2]};
-  jmp_buf jb;
-  if (setjmp(jb)) {
-    o.aborted = true;
+  sigjmp_buf jb;
+  const int rc = sigsetjmp(jb, 0);
+  if (rc) {
+    o.aborted = (rc == 1);
+    o.hung = (rc == 2);
     return o;
   }
-  t_abort_jmp = &jb;
+  hg::enter(&jb);
   int out;
   if (method == M_PROPAGATE)
     out = grid.propagate(ph, c.indir);
@@ -280,7 +281,7 @@ static Obs run_real(DensitySubGrid &grid, const Ctx &c, int method, double targe
     out = grid.compute_optical_depth(ph, c.indir);
   else
     out = grid.interact(ph, c.indir);
-  t_abort_jmp = nullptr;
+  hg::leave();
   o.out = out;
   o.E[0] = ph.get_position()[0];
   o.E[1] = ph.get_position()[1];
@@ -308,6 +309,11 @@ static Failure oracle(DensitySubGrid &grid, const Ctx &c, const xm::Path &path, 
     F.detail = fmt("returned direction %d", o.out);
     return F;
   }
+  if (!std::isfinite(o.tau_after) || !std::isfinite(o.E[0]) || !std::isfinite(o.E[1]) || !std::isfinite(o.E[2])) {
+    F.what = "non-finite";
+    F.detail = fmt("end=(%g,%g,%g) remaining depth %g", o.E[0], o.E[1], o.E[2], o.tau_after);
+    return F;
+  }
   if (o.packet_modified) {
     F.what = "packet-modified";
     F.detail = "direction/weight/energy/cross section of the packet changed";
@@ -328,7 +334,7 @@ static Failure oracle(DensitySubGrid &grid, const Ctx &c, const xm::Path &path, 
   const LD perp = sqrtl(perp2), straight = sqrtl(straight2);
   const LD Ltot = path.total_length();
   upd(ratio, perp, c.tolpos);
-  if (perp > c.tolpos || L < -c.tolpos || L > Ltot + c.tolpos) {
+  if (!(perp <= c.tolpos && L >= -c.tolpos && L <= Ltot + c.tolpos)) {
     F.what = "endpoint-off-ray";
     F.detail = fmt("end=(%.17g,%.17g,%.17g) distance from ray %.3Lg, along ray %.17Lg, block "
                    "chord %.17Lg",
@@ -392,7 +398,7 @@ static Failure oracle(DensitySubGrid &grid, const Ctx &c, const xm::Path &path, 
         continue;
       }
       upd(ratio, got - want, tol);
-      if (fabsl(got - want) > tol) {
+      if (!(fabsl(got - want) <= tol)) {
         F.what = deposits ? "percell-path" : "estimator-touched";
         F.detail = fmt("cell %d ion %d: estimator/(w*sigma) = %.17Lg, exact path in cell up to the "
                        "reported end point = %.17Lg (diff %.3Lg, tol %.3Lg)",
@@ -411,7 +417,7 @@ static Failure oracle(DensitySubGrid &grid, const Ctx &c, const xm::Path &path, 
       const LD got = iv.get_heating(HEATINGTERM_H);
       const LD tol = fabsl(ex) * (LD)s.weight * (LD)s.sigH * c.tollen + 1e-12L * fabsl(want);
       upd(ratio, got - want, tol);
-      if (fabsl(got - want) > tol) {
+      if (!(fabsl(got - want) <= tol)) {
         F.what = "heating-H";
         F.detail = fmt("cell %d: H heating %.17Lg, expected w*sigma*l*(nu-nu0) = %.17Lg", idx, got, want);
         return F;
@@ -425,7 +431,7 @@ static Failure oracle(DensitySubGrid &grid, const Ctx &c, const xm::Path &path, 
       const LD tol = fabsl(ex) * (LD)s.weight * (LD)s.sigHe * c.tollen + 1e-12L * fabsl(want);
       if (s.sigHe != 0)
         upd(ratio, got - want, tol);
-      if (fabsl(got - want) > tol) {
+      if (!(fabsl(got - want) <= tol)) {
         F.what = "heating-He";
         F.detail = fmt("cell %d: He heating %.17Lg, expected %.17Lg", idx, got, want);
         return F;
@@ -435,7 +441,7 @@ static Failure oracle(DensitySubGrid &grid, const Ctx &c, const xm::Path &path, 
   }
   if (deposits) {
     upd(ratio, sum_est_len - straight, c.tollen);
-    if (fabsl(sum_est_len - straight) > c.tollen) {
+    if (!(fabsl(sum_est_len - straight) <= c.tollen)) {
       F.what = "path-sum";
       F.detail = fmt("credited path lengths sum to %.17Lg, straight-line distance start->end is "
                      "%.17Lg",
@@ -455,7 +461,7 @@ static Failure oracle(DensitySubGrid &grid, const Ctx &c, const xm::Path &path, 
     const LD got = (LD)o.tau_after - (LD)target;
     const LD tol = 1e-12L * tau_total + 16 * eps * (tau_total + (LD)target) + geom_all;
     upd(ratio, got - tau_total, tol);
-    if (fabsl(got - tau_total) > tol) {
+    if (!(fabsl(got - tau_total) <= tol)) {
       F.what = "tau-total";
       F.detail = fmt("optical depth of the chord %.17Lg, exact %.17Lg", got, tau_total);
       return F;
@@ -472,7 +478,7 @@ static Failure oracle(DensitySubGrid &grid, const Ctx &c, const xm::Path &path, 
     const LD tolg = tol0 + geom_end;
     if (deposits) {
       upd(ratio, tau_est - (LD)target, tol0);
-      if (fabsl(tau_est - (LD)target) > tol0) {
+      if (!(fabsl(tau_est - (LD)target) <= tol0)) {
         F.what = "tau-absorbed";
         F.detail = fmt("reported absorbed, sum(n*x*sigma*credited path) = %.17Lg, target %.17g "
                        "(diff %.3Lg, tol %.3Lg)",
@@ -481,7 +487,7 @@ static Failure oracle(DensitySubGrid &grid, const Ctx &c, const xm::Path &path, 
       }
     }
     upd(ratio, tau_march - (LD)target, tolg);
-    if (fabsl(tau_march - (LD)target) > tolg) {
+    if (!(fabsl(tau_march - (LD)target) <= tolg)) {
       F.what = "tau-absorbed-geom";
       F.detail = fmt("reported absorbed at (%.17g,%.17g,%.17g); exact optical depth start->there "
                      "= %.17Lg, target %.17g (diff %.3Lg, tol %.3Lg)",
@@ -502,7 +508,7 @@ static Failure oracle(DensitySubGrid &grid, const Ctx &c, const xm::Path &path, 
     }
     const LD want = (LD)target - tau_total;
     upd(ratio, (LD)o.tau_after - want, tol);
-    if (fabsl((LD)o.tau_after - want) > tol) {
+    if (!(fabsl((LD)o.tau_after - want) <= tol)) {
       F.what = "remaining-tau";
       F.detail = fmt("remaining target depth %.17g, expected target - depth = %.17Lg", o.tau_after, want);
       return F;
@@ -511,7 +517,7 @@ static Failure oracle(DensitySubGrid &grid, const Ctx &c, const xm::Path &path, 
       const LD used = (LD)target - (LD)o.tau_after;
       const LD tol2 = 1e-12L * (LD)target + 16 * eps * (tau_total + (LD)target);
       upd(ratio, tau_est - used, tol2);
-      if (fabsl(tau_est - used) > tol2) {
+      if (!(fabsl(tau_est - used) <= tol2)) {
         F.what = "tau-used";
         F.detail = fmt("optical depth used up %.17Lg, sum(n*x*sigma*credited path) = %.17Lg", used, tau_est);
         return F;
@@ -522,7 +528,7 @@ static Failure oracle(DensitySubGrid &grid, const Ctx &c, const xm::Path &path, 
   for (int i = 0; i < 3; ++i) {
     const LD erel = (LD)o.E[i] - (LD)c.A->a[i];
     upd(ratio, erel - path.exit_pos[i], c.tolpos);
-    if (fabsl(erel - path.exit_pos[i]) > c.tolpos) {
+    if (!(fabsl(erel - path.exit_pos[i]) <= c.tolpos)) {
       F.what = "exit-point";
       F.detail = fmt("left the block at (%.17g,%.17g,%.17g) (absolute), the line leaves it at "
                      "(%.17Lg,%.17Lg,%.17Lg) (relative to the block corner)",
@@ -536,7 +542,7 @@ static Failure oracle(DensitySubGrid &grid, const Ctx &c, const xm::Path &path, 
     if (rs[i] == 0)
       continue;
     const LD bound = rs[i] > 0 ? (LD)n[i] * (LD)c.G->S[i] * c.G->q : 0.L;
-    if (rs[i] * c.b.d[i] <= 0 || fabsl(path.exit_pos[i] - bound) > c.tolpos) {
+    if (rs[i] * c.b.d[i] <= 0 || !(fabsl(path.exit_pos[i] - bound) <= c.tolpos)) {
       F.what = "exit-class";
       F.detail = fmt("reported exit element %d (%s %d,%d,%d) does not contain the exit point of "
                      "the line (%.17Lg,%.17Lg,%.17Lg); the line crosses element (%d,%d,%d)",
@@ -573,18 +579,18 @@ static std::string replay_json(const Ctx &c, int method, int tkind, double targe
   const Base &b = c.b;
   return fmt("{\"geom\": %d, \"anch\": %d, \"shape\": [%d, %d, %d], \"h\": [%d, %d, %d], "
              "\"d\": [%d, %d, %d], \"cls\": [%d, %d, %d], \"field\": %d, \"sig\": %d, "
-             "\"meth\": %d, \"tk\": %d, \"target\": \"%a\"}",
+             "\"meth\": %d, \"tk\": %d, \"zs\": %d, \"target\": \"%a\"}",
              b.g, b.a, b.n[0], b.n[1], b.n[2], b.h[0], b.h[1], b.h[2], b.d[0], b.d[1], b.d[2],
-             b.cls[0], b.cls[1], b.cls[2], c.field, c.sig, method, tkind, target);
+             b.cls[0], b.cls[1], b.cls[2], c.field, c.sig, method, tkind, b.zs, target);
 }
 static std::string case_text(const Ctx &c, int method, int tkind, double target) {
   const Base &b = c.b;
   return fmt("%s block %dx%dx%d cells (%s sizes %g,%g,%g, anchor %s) start=(%.17g,%.17g,%.17g) "
-             "[half-cell index %d,%d,%d] dir=(%d,%d,%d)/norm entry=%d(%d,%d,%d) field=%s "
+             "[half-cell index %d,%d,%d] dir=(%s%d,%s%d,%s%d)/norm entry=%d(%d,%d,%d) field=%s "
              "sigma=%s target=%a [%s]",
              METHOD_NAMES[method], b.n[0], b.n[1], b.n[2], c.G->name, c.G->cs[0], c.G->cs[1],
-             c.G->cs[2], c.A->name, c.p0[0], c.p0[1], c.p0[2], b.h[0], b.h[1], b.h[2], b.d[0],
-             b.d[1], b.d[2], c.indir, b.cls[0], b.cls[1], b.cls[2], FIELD_NAMES[c.field],
+             c.G->cs[2], c.A->name, c.p0[0], c.p0[1], c.p0[2], b.h[0], b.h[1], b.h[2],
+             (b.zs & 1) ? "-" : "", b.d[0], (b.zs & 2) ? "-" : "", b.d[1], (b.zs & 4) ? "-" : "", b.d[2], c.indir, b.cls[0], b.cls[1], b.cls[2], FIELD_NAMES[c.field],
              SIGS[c.sig].name, target, TKIND_NAMES[tkind]);
 }
 
@@ -636,8 +642,8 @@ struct Runner {
     const char *ek = elem_kind(c.b.cls);
     const int nz = (c.b.d[0] != 0) + (c.b.d[1] != 0) + (c.b.d[2] != 0);
     std::string key =
-        fmt("C02:%s:%s:entry=%s:dir%d:%s", METHOD_NAMES[method], F.what.c_str(), ek, nz,
-            c.exact ? "exact-geometry" : "inexact-geometry");
+        fmt("C02:%s:%s:entry=%s:dir%d%s:%s", METHOD_NAMES[method], F.what.c_str(), ek, nz,
+            c.b.zs ? "-negzero" : "", c.exact ? "exact-geometry" : "inexact-geometry");
     R.violation(key, case_text(c, method, tkind, target) + " :: " + F.detail,
                 replay_json(c, method, tkind, target));
   }
@@ -661,13 +667,14 @@ struct Runner {
     else
       ++st.zero_path;
     if (verbose)
-      printf("  %s\n   -> out=%d end=(%.17g,%.17g,%.17g) tau_after=%.17g aborted=%d\n",
+      printf("  %s\n   -> out=%d end=(%.17g,%.17g,%.17g) tau_after=%.17g aborted=%d hung=%d\n",
              case_text(c, method, tkind, target).c_str(), o.out, o.E[0], o.E[1], o.E[2],
-             o.tau_after, (int)o.aborted);
-    if (o.aborted) {
+             o.tau_after, (int)o.aborted, (int)o.hung);
+    if (o.aborted || o.hung) {
       Failure F;
-      F.what = "abort";
-      F.detail = "the traversal called abort() (cmac_error)";
+      F.what = o.hung ? "no-termination" : "abort";
+      F.detail = o.hung ? "the traversal did not return within 2 s (a traversal takes about a microsecond)"
+                        : "the traversal called abort() (cmac_error)";
       report(c, method, tkind, target, F);
       return;
     }
@@ -736,7 +743,7 @@ struct Runner {
     for (int i = 0; i < 3; ++i) {
       c.p0[i] = c.A->a[i] + (0.5 * b.h[i]) * c.G->cs[i];
       c.p0rel[i] = (LD)((i64)b.h[i] * c.G->S[i] / 2) * c.G->q;
-      c.dir[i] = b.d[i] / nrmd;
+      c.dir[i] = (b.d[i] == 0 && ((b.zs >> i) & 1)) ? -0. : b.d[i] / nrmd;
       c.u[i] = (LD)b.d[i] / nrm;
       const LD side = (LD)b.n[i] * (LD)c.G->S[i] * c.G->q;
       s2 += side * side;
@@ -780,6 +787,8 @@ struct Runner {
     Ctx c;
     fill_ctx_geometry(c, b);
     ++st.base_cases;
+    if (b.zs)
+      ++st.negzero_base_cases;
     ++st.entries[(b.cls[0] != 0) + (b.cls[1] != 0) + (b.cls[2] != 0)];
     std::vector< StartAlt > alts;
     start_alternatives(b, *c.G, c.exact, alts);
@@ -818,7 +827,7 @@ struct Runner {
         if (cfg.taumethod && ttot > 0) {
           PhotonPacket ph;
           Obs o = run_real(grid, c, M_TAU, 0., ph);
-          if (!o.aborted)
+          if (!o.aborted && !o.hung)
             code_total = o.tau_after;
         }
         double targets[K_NUM];
@@ -887,12 +896,12 @@ struct Runner {
       if ((b.h[i] == 2 * b.n[i] && b.d[i] >= 0) || (b.h[i] == 0 && b.d[i] < 0))
         enters = false;
     double dep = 0;
-    if (!o.aborted)
+    if (!o.aborted && !o.hung)
       for (int idx = 0; idx < c.ncell; ++idx) {
         DensitySubGrid::iterator it(idx, grid);
         dep += it.get_ionization_variables().get_mean_intensity(ION_H_n);
       }
-    if (o.aborted || (enters && dep == 0.))
+    if (o.aborted || o.hung || (enters && dep == 0.))
       ++st.upper_inside_lost;
     grid.reset_intensities();
   }
@@ -968,6 +977,7 @@ int main(int argc, char **argv) {
            "field, cross sections, target, method) tuples are distinct by construction; "
            "non-trivial = the exact chord through the block has positive length";
 
+  hg::start(2000);
   // ------------------------------------------------------------------ replay
   if (!A.replay.empty()) {
     const std::string txt = read_file(A.replay);
@@ -982,6 +992,7 @@ int main(int argc, char **argv) {
     const int sig = atoi(replay_field(txt, "sig").c_str());
     const int meth = atoi(replay_field(txt, "meth").c_str());
     const int tk = atoi(replay_field(txt, "tk").c_str());
+    b.zs = atoi(replay_field(txt, "zs").c_str());
     const double target = strtod(replay_field(txt, "target").c_str(), nullptr);
     cfg.fields = {field};
     cfg.sigs = {sig};
@@ -1028,7 +1039,7 @@ int main(int argc, char **argv) {
     for (size_t ii = 0; ii < nitems; ++ii) {
       if (cut)
         continue;
-      if (R.out_of_time() || R.violation_count > max_viol) {
+      if (R.out_of_time() || R.violation_count > max_viol || hg::g_hangs.load() > 30) {
         cut = true;
         continue;
       }
@@ -1054,12 +1065,21 @@ int main(int argc, char **argv) {
             b.d[0] = dx;
             b.d[1] = dy;
             b.d[2] = dz;
-            for_each_class(b.n, b.h, b.d, [&](const int cls[3]) {
-              b.cls[0] = cls[0];
-              b.cls[1] = cls[1];
-              b.cls[2] = cls[2];
-              run.run_base(*grid, b, dirty);
-            });
+            // every sign-bit combination of the zero components (+0.0 / -0.0):
+            // a zero component contributes no motion whatever its sign
+            const int zmask = (dx == 0 ? 1 : 0) | (dy == 0 ? 2 : 0) | (dz == 0 ? 4 : 0);
+            for (int zs = 0; zs < 8; ++zs) {
+              if (zs & ~zmask)
+                continue;
+              b.zs = zs;
+              for_each_class(b.n, b.h, b.d, [&](const int cls[3]) {
+                b.cls[0] = cls[0];
+                b.cls[1] = cls[1];
+                b.cls[2] = cls[2];
+                run.run_base(*grid, b, dirty);
+              });
+            }
+            b.zs = 0;
             if (on_upper && it.g == 0 && it.a == 0 && subset != "asan")
               run.upper_face_probe(*grid, b);
           }
@@ -1071,7 +1091,9 @@ int main(int argc, char **argv) {
     total.merge(run.st);
   }
   if (cut) {
-    if (R.violation_count > max_viol)
+    if (hg::g_hangs.load() > 30)
+      R.cap("stopped after more than 30 traversals that did not terminate");
+    else if (R.violation_count > max_viol)
       R.cap(fmt("stopped after more than %" PRIu64 " violations", max_viol));
     else
       R.hit_deadline(fmt("%zu of %zu (geometry, anchor, shape, start point) items done", items_done, nitems));
@@ -1079,6 +1101,7 @@ int main(int argc, char **argv) {
   R.evaluations = total.evaluations;
   R.nontrivial = total.nontrivial;
   R.set("base_cases_start_dir_class", (double)total.base_cases);
+  R.set("base_cases_with_negative_zero_direction_component", (double)total.negzero_base_cases);
   R.set("items_geometry_shape_start", (double)nitems);
   for (int m = 0; m < M_NUM; ++m)
     R.set(std::string("traversals_") + METHOD_NAMES[m], (double)total.by_method[m]);
@@ -1107,7 +1130,7 @@ int main(int argc, char **argv) {
       "are assigned with floor(), continuous sources clamp below the upper face); upper faces "
       "occur only as entry elements with an inward direction");
  R.sample(fmt("{\"shapes\": \"(1..%d)^3 (dyadic geometry, zero anchor: (1..%d)^3)\", \"geometries\": %zu, \"anchors\": %zu, \"fields\": %zu, "
-               "\"sigma_sets\": %zu, \"directions\": 124}",
+               "\"sigma_sets\": %zu, \"directions\": \"124 integer directions, 208 with the sign-bit variants of zero components\"}",
                cfg.nmax, cfg.nmax_big, cfg.geoms.size(), cfg.anchors.size(), cfg.fields.size(), cfg.sigs.size()));
   return R.finish(A);
 }
